@@ -1,7 +1,7 @@
 (* C06 — the hash join model (model/HashJoin.v) emits the same bag of rows as `Sql.join_rows`. *)
 From Coq Require Import NArith ZArith List Bool Lia PeanoNat.
 From Coq Require Import Sorting.Permutation.
-From GV Require Import model.Sql model.HashJoin proofs.JoinSpecProofs.
+From GV Require Import model.Sql model.HashJoin model.NlJoin proofs.JoinSpecProofs.
 Import ListNotations.
 
 (* ------------------------------------------------------------------ list lemmas *)
@@ -178,6 +178,59 @@ Proof.
   - apply IH; assumption.
 Qed.
 
+(* ------------------------------------------------------------------ loop interchange, decomposition *)
+
+Lemma existsb_map : forall {A B} (f : B -> bool) (g : A -> B) (l : list A),
+  existsb f (map g l) = existsb (fun x => f (g x)) l.
+Proof. intros A B f g l. induction l as [|x l IH]; cbn; [reflexivity|]. rewrite IH. reflexivity. Qed.
+
+(* the pairs of one right row, in left order *)
+Definition RMp (p : row -> row -> bool) (L : list row) (r : row) : list row :=
+  map (fun l => l ++ r) (lmatches p L r).
+
+(* right-major enumeration of the matching pairs = left-major enumeration, as bags *)
+Lemma inner_swap_perm_g : forall p (L0 R : list row) la ra,
+  Permutation (flat_map (RMp p L0) R) (pure_join JInner L0 R la ra p).
+Proof.
+  intros p L0 R la ra. cbn [pure_join]. induction L0 as [|l L0 IH]; cbn [flat_map].
+  - unfold RMp, lmatches. cbn. induction R as [|r R IHR]; cbn; [constructor|exact IHR].
+  - assert (E : forall r, RMp p (l :: L0) r = (if p l r then [l ++ r] else []) ++ RMp p L0 r).
+    { intros r. unfold RMp, lmatches. cbn. destruct (p l r); reflexivity. }
+    erewrite flat_map_ext; [|intros r; apply E].
+    eapply Permutation_trans; [apply perm_flat_map_app|].
+    rewrite (flat_map_if_filter (p l) (fun r => l ++ r)). unfold rmatches.
+    apply Permutation_app_head. exact IH.
+Qed.
+
+Lemma left_decompose_g : forall p (L0 R0 : list row) la ra,
+  Permutation (pure_join JLeft L0 R0 la ra p)
+              (pure_join JInner L0 R0 la ra p
+               ++ flat_map (fun l => if existsb (p l) R0 then [] else [l ++ nulls ra]) L0).
+Proof.
+  intros p L0 R0 la ra. cbn [pure_join]. unfold rmatches.
+  erewrite flat_map_ext; [|intros l; apply or_pad_decomp].
+  apply perm_flat_map_app.
+Qed.
+
+Lemma right_rows_perm : forall p (L0 : list row) la (batch : list row),
+  Permutation (flat_map (RMp p L0) batch
+               ++ flat_map (fun r => if existsb (fun l => p l r) L0 then [] else [nulls la ++ r]) batch)
+              (flat_map (fun r => or_pad (map (fun l => l ++ r) (lmatches p L0 r)) (nulls la ++ r)) batch).
+Proof.
+  intros p L0 la batch.
+  eapply Permutation_trans; [apply Permutation_sym; apply perm_flat_map_app|].
+  erewrite flat_map_ext; [apply Permutation_refl|].
+  intros r. unfold RMp, lmatches. symmetry.
+  apply (or_pad_decomp (fun l => l ++ r) (fun l => p l r)).
+Qed.
+
+Lemma flat_map_concat_flat_map : forall {A B C} (g : B -> list C) (S : A -> list (list B)) (ps : list A),
+  flat_map (fun p => flat_map g (concat (S p))) ps = flat_map g (concat (flat_map S ps)).
+Proof.
+  intros A B C g S ps. induction ps as [|p ps IH]; cbn; [reflexivity|].
+  rewrite concat_app, flat_map_app, IH. reflexivity.
+Qed.
+
 (* ------------------------------------------------------------------ the model *)
 
 Section HashJoinCorrect.
@@ -202,7 +255,7 @@ Section HashJoinCorrect.
     = rev (filter (fun x => N.eqb s (slot (bhash (snd x)))) ins) ++ d0 s.
   Proof.
     induction ins as [|x ins IH]; intros d0 s; cbn [fold_left filter]; [reflexivity|].
-    rewrite IH. unfold HashJoin.dir_insert at 2.
+    rewrite IH. unfold HashJoin.dir_insert.
     destruct (N.eqb s (slot (bhash (snd x)))); cbn [rev]; [|reflexivity].
     rewrite <- app_assoc. reflexivity.
   Qed.
@@ -368,4 +421,749 @@ Section HashJoinCorrect.
     rewrite W. unfold probe_init. rewrite map_map. apply map_ext. intros r.
     unfold fin, e_row, e_chain, e_flag. cbn. rewrite chain_exists. reflexivity.
   Qed.
+
+  (* ---- assembling the operator ---- *)
+  Definition pm (l r : row) : bool := matcher l r.
+  Notation RM := (RMp pm).
+
+  Section Inputs.
+    Variable Lparts : list (list (list row)).
+    Variable ins : list bptr.
+    Hypothesis ins_perm : Permutation ins (stored_rows Lparts).
+    Let L := concat (concat Lparts).
+    Let d := build_dir ins.
+
+    Lemma lift_chain : forall r,
+      Permutation (map (fun b : bptr => snd b ++ r) (chain_matches ins r)) (RM L r).
+    Proof.
+      intros r. unfold RMp, lmatches, L. rewrite <- stored_rows_snd.
+      rewrite (filter_map_comm (fun l => pm l r) snd), map_map.
+      apply Permutation_map.
+      eapply Permutation_trans; [apply chain_matches_perm|].
+      apply perm_filter. exact ins_perm.
+    Qed.
+
+    Lemma batch_inner : forall batch,
+      Permutation (map pair_row (concat (fst (scan_batch d batch)))) (flat_map (RM L) batch).
+    Proof.
+      intros batch.
+      eapply Permutation_trans; [apply Permutation_map; apply scan_batch_pairs|].
+      rewrite map_flat_map_out. apply perm_flat_map_ext. intros r _.
+      rewrite map_map. unfold pair_row. cbn [fst snd]. apply lift_chain.
+    Qed.
+
+    Lemma exists_ins_L : forall r,
+      existsb (fun b : bptr => matcher (snd b) r) ins = existsb (fun l => pm l r) L.
+    Proof.
+      intros r. rewrite (existsb_perm _ _ _ ins_perm). unfold L. rewrite <- stored_rows_snd.
+      rewrite existsb_map. reflexivity.
+    Qed.
+
+    Lemma flush_flags : forall la (flag : row -> bool) (batch : list row),
+      map (fun e : entry => nulls la ++ e_row e)
+          (filter (fun e : entry => negb (e_flag e)) (map (fun r => (r, @nil bptr, flag r)) batch))
+      = flat_map (fun r => if flag r then [] else [nulls la ++ r]) batch.
+    Proof.
+      intros la flag batch. induction batch as [|r batch IH]; [reflexivity|].
+      cbn [map filter flat_map]. unfold e_flag at 1. cbn [snd].
+      destruct (flag r); cbn [negb map app]; rewrite IH; reflexivity.
+    Qed.
+
+    Lemma batch_right_flush : forall la batch,
+      map (fun e : entry => nulls la ++ e_row e) (filter (fun e => negb (e_flag e)) (snd (scan_batch d batch)))
+      = flat_map (fun r => if existsb (fun l => pm l r) L then [] else [nulls la ++ r]) batch.
+    Proof.
+      intros la batch. unfold d. rewrite scan_batch_flags.
+      rewrite (flush_flags la (fun r => existsb (fun b : bptr => matcher (snd b) r) ins)).
+      apply flat_map_ext. intros r. rewrite exists_ins_L. reflexivity.
+    Qed.
+
+    Variable Rparts : list (list (list row)).
+    Let R := concat (concat Rparts).
+    Let scans := map (scan_batch d) (concat Rparts).
+
+    Lemma probe_inner_perm : forall la ra,
+      Permutation (flat_map (fun s => map pair_row (concat (fst s))) scans) (pure_join JInner L R la ra pm).
+    Proof.
+      intros la ra. unfold scans. rewrite flat_map_map_in.
+      eapply Permutation_trans; [apply perm_flat_map_ext; intros batch _; apply batch_inner|].
+      rewrite <- flat_map_concat. apply inner_swap_perm_g.
+    Qed.
+
+    (* all (build, probe) pairs found by all probes *)
+    Lemma emitted_perm :
+      Permutation (flat_map (fun s => concat (fst s)) scans)
+                  (flat_map (fun r => map (fun b => (b, r)) (chain_matches ins r)) R).
+    Proof.
+      unfold scans, R. rewrite flat_map_map_in, (flat_map_concat _ (concat Rparts)).
+      apply perm_flat_map_ext. intros batch _. apply scan_batch_pairs.
+    Qed.
+
+    Lemma in_emitted : forall b r,
+      In (b, r) (flat_map (fun r => map (fun b => (b, r)) (chain_matches ins r)) R)
+      <-> In r R /\ In b ins /\ matcher (snd b) r = true.
+    Proof.
+      intros b r. rewrite in_flat_map. split.
+      - intros [r' [Hr' Hin]]. apply in_map_iff in Hin. destruct Hin as [b' [E Hb']].
+        inversion E; subst b' r'. unfold chain_matches in Hb'. apply filter_In in Hb'.
+        destruct Hb' as [Hc Hm]. repeat split; [exact Hr'| |exact Hm].
+        eapply chain_sound. exact Hc.
+      - intros [Hr [Hb Hm]]. exists r. split; [exact Hr|]. apply in_map_iff. exists b.
+        split; [reflexivity|]. unfold chain_matches. apply filter_In. split; [|exact Hm].
+        apply bucket_complete; assumption.
+    Qed.
+
+    (* the `matched` flag of a stored row after all probing: it has a partner among the probe rows *)
+    Lemma is_marked_spec : forall k b, needs_match_column k = true -> In b (stored_rows Lparts) ->
+      is_marked (flat_map (probe_marks k) scans) b = existsb (pm (snd b)) R.
+    Proof.
+      intros k b Hk Hb. apply eq_true_iff_eq. unfold is_marked. rewrite !existsb_exists.
+      assert (EM : flat_map (probe_marks k) scans
+                   = map (fun x : bptr * row => fst (fst x)) (flat_map (fun s => concat (fst s)) scans)).
+      { rewrite map_flat_map_out. apply flat_map_ext. intros s. unfold probe_marks. rewrite Hk. reflexivity. }
+      rewrite EM. split.
+      - intros [i [Hi Heq]]. apply Nat.eqb_eq in Heq. apply in_map_iff in Hi.
+        destruct Hi as [[b' r] [Hf Hx]]. cbn in Hf.
+        apply (Permutation_in _ emitted_perm) in Hx. apply in_emitted in Hx.
+        destruct Hx as [Hr [Hb' Hm]].
+        assert (b' = b).
+        { apply (nodup_fst_inj (stored_rows Lparts)); [apply stored_rows_nodup| |exact Hb|congruence].
+          eapply Permutation_in; [exact ins_perm|exact Hb']. }
+        subst b'. exists r. split; [exact Hr|exact Hm].
+      - intros [r [Hr Hm]]. exists (fst b). split; [|apply Nat.eqb_refl].
+        apply in_map_iff. exists (b, r). split; [reflexivity|].
+        apply (Permutation_in _ (Permutation_sym emitted_perm)). apply in_emitted.
+        repeat split; [exact Hr| |exact Hm].
+        eapply Permutation_in; [apply Permutation_sym; exact ins_perm|exact Hb].
+    Qed.
+
+    Lemma drain_all_perm : forall k ra marked (blocks : list (list bptr)) P,
+      needs_drain k = true -> (1 <= P)%nat ->
+      Permutation (drain_all k ra marked blocks P) (flat_map (drain_row k ra marked) (concat blocks)).
+    Proof.
+      intros k ra marked blocks P Hk HP. unfold drain_all, drain_partition. rewrite Hk.
+      rewrite (flat_map_concat_flat_map (drain_row k ra marked) (fun p => strided P p blocks)).
+      apply perm_flat_map. apply perm_concat. apply strided_cover. exact HP.
+    Qed.
+
+    (* what the drain emits, in terms of the inputs *)
+    Definition drain_spec (k : hkind) (ra : nat) (l : row) : list row :=
+      match k with
+      | HLeft => if existsb (pm l) R then [] else [l ++ nulls ra]
+      | HSemi => if existsb (pm l) R then [l] else []
+      | HMark => [l ++ [VBool (existsb (pm l) R)]]
+      | HInner | HRight => []
+      end.
+
+    Lemma drain_perm : forall k ra P, needs_drain k = true -> (1 <= P)%nat ->
+      Permutation (drain_all k ra (flat_map (probe_marks k) scans) (number_blocks 0 (concat Lparts)) P)
+                  (flat_map (drain_spec k ra) L).
+    Proof.
+      intros k ra P Hk HP.
+      eapply Permutation_trans; [apply drain_all_perm; assumption|].
+      fold (stored_rows Lparts). unfold L. rewrite <- stored_rows_snd, flat_map_map_in.
+      apply perm_flat_map_ext. intros b Hb.
+      assert (Hm : needs_match_column k = true) by (destruct k; cbn in *; congruence).
+      unfold drain_row, drain_spec. rewrite (is_marked_spec k b Hm Hb).
+      apply Permutation_refl.
+    Qed.
+
+    Notation hj := (hash_join hash ops bkeys pkeys kbits).
+
+    Lemma hash_inner_pure : forall la ra P,
+      Permutation (hj HInner la ra P Lparts ins Rparts) (pure_join JInner L R la ra pm).
+    Proof.
+      intros la ra P. unfold HashJoin.hash_join. cbn [drain_all needs_drain]. rewrite app_nil_r.
+      apply (probe_inner_perm la ra).
+    Qed.
+
+    Lemma hash_left_pure : forall la ra P, (1 <= P)%nat ->
+      Permutation (hj HLeft la ra P Lparts ins Rparts) (pure_join JLeft L R la ra pm).
+    Proof.
+      intros la ra P HP. unfold HashJoin.hash_join.
+      eapply Permutation_trans; [|apply Permutation_sym; apply left_decompose_g].
+      apply Permutation_app.
+      - apply (probe_inner_perm la ra).
+      - apply (drain_perm HLeft ra P eq_refl HP).
+    Qed.
+
+    Lemma hash_right_pure : forall la ra P,
+      Permutation (hj HRight la ra P Lparts ins Rparts) (pure_join JRight L R la ra pm).
+    Proof.
+      intros la ra P. unfold HashJoin.hash_join. cbn [drain_all needs_drain]. rewrite app_nil_r.
+      fold d. fold scans. unfold scans. rewrite flat_map_map_in. cbn [pure_join].
+      unfold R. rewrite (flat_map_concat _ (concat Rparts)). apply perm_flat_map_ext. intros batch _.
+      cbn [probe_output]. rewrite batch_right_flush.
+      eapply Permutation_trans; [apply Permutation_app_tail; apply batch_inner|].
+      apply right_rows_perm.
+    Qed.
+
+    Lemma hash_semi_pure : forall la ra P, (1 <= P)%nat ->
+      Permutation (hj HSemi la ra P Lparts ins Rparts) (pure_join JSemi L R la ra pm).
+    Proof.
+      intros la ra P HP. unfold HashJoin.hash_join.
+      replace (flat_map (probe_output HSemi la) (map (scan_batch (build_dir ins)) (concat Rparts))) with (@nil row).
+      - cbn [app]. eapply Permutation_trans; [apply (drain_perm HSemi ra P eq_refl HP)|].
+        cbn [pure_join]. unfold drain_spec.
+        rewrite (flat_map_if_filter (fun l => existsb (pm l) R) (fun l => l)), map_id.
+        apply Permutation_refl.
+      - induction (map (scan_batch (build_dir ins)) (concat Rparts)) as [|s ss IH]; [reflexivity|exact IH].
+    Qed.
+
+    (* LEFT MARK: every left row once, with the flag "has a partner" *)
+    Definition mark_rows (L0 R0 : list row) : list row :=
+      map (fun l => l ++ [VBool (existsb (pm l) R0)]) L0.
+
+    Lemma hash_mark_pure : forall la ra P, (1 <= P)%nat ->
+      Permutation (hj HMark la ra P Lparts ins Rparts) (mark_rows L R).
+    Proof.
+      intros la ra P HP. unfold HashJoin.hash_join.
+      replace (flat_map (probe_output HMark la) (map (scan_batch (build_dir ins)) (concat Rparts))) with (@nil row).
+      - cbn [app]. eapply Permutation_trans; [apply (drain_perm HMark ra P eq_refl HP)|].
+        unfold drain_spec, mark_rows. rewrite flat_map_singleton. apply Permutation_refl.
+      - induction (map (scan_batch (build_dir ins)) (concat Rparts)) as [|s ss IH]; [reflexivity|exact IH].
+    Qed.
+  End Inputs.
 End HashJoinCorrect.
+
+(* ------------------------------------------------------------------ (2) hash join refines the spec *)
+
+Definition spec_kind (k : hkind) : jkind :=
+  match k with HInner => JInner | HLeft => JLeft | HRight => JRight | HSemi | HMark => JSemi end.
+
+Definition hash_ok (hash : list value -> N) : Prop :=
+  forall k1 k2, keys_match k1 k2 = true -> hash k1 = hash k2.
+
+(* INNER, LEFT, RIGHT, LEFT SEMI: any hash function respecting key equality, any capacity 2^kbits,
+   any insertion order, any split of both inputs into partitions and blocks/batches, any number
+   P >= 1 of drain partitions. *)
+Theorem hash_join_refines_spec :
+  forall hash, hash_ok hash ->
+  forall ops bkeys pkeys kbits k la ra P Lparts ins Rparts on,
+  k <> HMark -> (1 <= P)%nat ->
+  Permutation ins (stored_rows Lparts) ->
+  on_total on (fun l r => conds_match ops (bkeys l) (pkeys r))
+           (concat (concat Lparts)) (concat (concat Rparts)) ->
+  exists out,
+    join_rows (spec_kind k) (concat (concat Lparts)) (concat (concat Rparts)) la ra on = Ok out /\
+    Permutation (hash_join hash ops bkeys pkeys kbits k la ra P Lparts ins Rparts) out.
+Proof.
+  intros hash Hh ops bkeys pkeys kbits k la ra P Lparts ins Rparts on Hk HP Hins Hon.
+  eexists. split; [apply (join_rows_pure _ _ _ _ _ _ _ Hon)|].
+  destruct k; cbn [spec_kind].
+  - apply hash_inner_pure; assumption.
+  - apply hash_left_pure; assumption.
+  - apply hash_right_pure; assumption.
+  - apply hash_semi_pure; assumption.
+  - congruence.
+Qed.
+
+Lemma mark_filter_mark_rows : forall (q : row -> bool) (want : bool) (L : list row),
+  mark_filter want (map (fun l => l ++ [VBool (q l)]) L) = filter (fun l => Bool.eqb (q l) want) L.
+Proof.
+  intros q want L. unfold mark_filter. rewrite flat_map_map_in.
+  induction L as [|l L IH]; cbn [flat_map filter]; [reflexivity|].
+  unfold last_flag_filter at 1. rewrite last_last, removelast_last.
+  destruct (Bool.eqb (q l) want); cbn [app]; rewrite IH; reflexivity.
+Qed.
+
+(* LEFT MARK (what EXISTS / IN / NOT EXISTS / NOT IN / = ANY compile to): the filter on the mark
+   column placed above it yields exactly SEMI, its negation exactly ANTI. *)
+Theorem hash_mark_refines_spec :
+  forall hash, hash_ok hash ->
+  forall ops bkeys pkeys kbits la ra P Lparts ins Rparts on,
+  (1 <= P)%nat ->
+  Permutation ins (stored_rows Lparts) ->
+  on_total on (fun l r => conds_match ops (bkeys l) (pkeys r))
+           (concat (concat Lparts)) (concat (concat Rparts)) ->
+  let out := hash_join hash ops bkeys pkeys kbits HMark la ra P Lparts ins Rparts in
+  Permutation out (map (fun l => l ++ [VBool (existsb (fun r => conds_match ops (bkeys l) (pkeys r))
+                                                      (concat (concat Rparts)))])
+                       (concat (concat Lparts))) /\
+  exists s a,
+    join_rows JSemi (concat (concat Lparts)) (concat (concat Rparts)) la ra on = Ok s /\
+    join_rows JAnti (concat (concat Lparts)) (concat (concat Rparts)) la ra on = Ok a /\
+    Permutation (mark_filter true out) s /\ Permutation (mark_filter false out) a.
+Proof.
+  intros hash Hh ops bkeys pkeys kbits la ra P Lparts ins Rparts on HP Hins Hon out.
+  assert (HM : Permutation out (mark_rows ops bkeys pkeys (concat (concat Lparts)) (concat (concat Rparts)))).
+  { apply hash_mark_pure; assumption. }
+  split; [exact HM|].
+  exists (pure_join JSemi (concat (concat Lparts)) (concat (concat Rparts)) la ra
+            (fun l r => conds_match ops (bkeys l) (pkeys r))),
+         (pure_join JAnti (concat (concat Lparts)) (concat (concat Rparts)) la ra
+            (fun l r => conds_match ops (bkeys l) (pkeys r))).
+  rewrite !(join_rows_pure _ _ _ _ _ _ _ Hon). repeat split.
+  - eapply Permutation_trans; [apply perm_flat_map; exact HM|].
+    fold (mark_filter true (mark_rows ops bkeys pkeys (concat (concat Lparts)) (concat (concat Rparts)))).
+    unfold mark_rows. rewrite mark_filter_mark_rows. cbn [pure_join].
+    erewrite filter_ext_in'; [apply Permutation_refl|].
+    intros l _. unfold pm, matcher. destruct (existsb _ _); reflexivity.
+  - eapply Permutation_trans; [apply perm_flat_map; exact HM|].
+    fold (mark_filter false (mark_rows ops bkeys pkeys (concat (concat Lparts)) (concat (concat Rparts)))).
+    unfold mark_rows. rewrite mark_filter_mark_rows. cbn [pure_join].
+    erewrite filter_ext_in'; [apply Permutation_refl|].
+    intros l _. unfold pm, matcher. destruct (existsb _ _); reflexivity.
+Qed.
+
+(* the join condition of the hash join is "equality keys match AND the other comparisons hold" *)
+Fixpoint extra_match (ops : list cmpop) (k1 k2 : list value) : bool :=
+  match ops, k1, k2 with
+  | [], [], [] => true
+  | op :: ops', a :: k1', b :: k2' =>
+      (match op with CEq => true | _ => cmp_true op a b end) && extra_match ops' k1' k2'
+  | _, _, _ => false
+  end.
+
+Lemma conds_match_split : forall ops k1 k2,
+  conds_match ops k1 k2 = keys_match (eq_cols ops k1) (eq_cols ops k2) && extra_match ops k1 k2.
+Proof.
+  induction ops as [|op ops IH]; intros k1 k2.
+  - destruct k1, k2; reflexivity.
+  - destruct k1 as [|a k1], k2 as [|b k2]; cbn [conds_match extra_match eq_cols];
+      try (rewrite andb_false_r; reflexivity).
+    rewrite IH. destruct op; cbn [app keys_match];
+      destruct (cmp_true _ a b), (keys_match (eq_cols ops k1) (eq_cols ops k2)), (extra_match ops k1 k2);
+      reflexivity.
+Qed.
+
+(* NULL in an equality key column: the row matches nothing in the hash join either *)
+Lemma conds_match_null_key : forall ops k1 k2,
+  In VNull (eq_cols ops k1) \/ In VNull (eq_cols ops k2) -> conds_match ops k1 k2 = false.
+Proof.
+  intros ops k1 k2 H. rewrite conds_match_split, (keys_match_null _ _ H). reflexivity.
+Qed.
+
+(* a hash function that satisfies the hypothesis (sum of the integer components), and the constant one *)
+Definition hash_ints (ks : list value) : N :=
+  fold_right (fun v acc => match v with VInt z => Z.to_N (Z.abs z) + acc | _ => acc end)%N 0%N ks.
+
+Lemma hash_ints_ok : hash_ok hash_ints.
+Proof.
+  intros k1. induction k1 as [|a k1 IH]; intros k2 H; destruct k2 as [|b k2]; cbn in H; try discriminate.
+  - reflexivity.
+  - apply andb_true_iff in H. destruct H as [Hc Hr]. cbn [hash_ints fold_right].
+    fold (hash_ints k1). fold (hash_ints k2). rewrite (IH k2 Hr).
+    destruct a, b; cbn in Hc; try discriminate; try reflexivity.
+    unfold cmp_true in Hc. cbn in Hc. destruct (Z.compare_spec z z0); cbn in Hc; try discriminate.
+    subst. reflexivity.
+Qed.
+
+Lemma hash_const_ok : hash_ok (fun _ => 0%N).
+Proof. intros k1 k2 _. reflexivity. Qed.
+
+(* hypotheses of the two theorems are satisfiable *)
+Example hash_join_refines_spec_ex :
+  hash_ok hash_ints /\ HLeft <> HMark /\ (1 <= 2)%nat /\
+  Permutation [(1%nat, [VInt 2]); (0%nat, [VInt 1])] (stored_rows [[[[VInt 1]]; [[VInt 2]]]]) /\
+  on_total (fun x => Ok (conds_match [CEq] [nth 0 x VNull] [nth 1 x VNull]))
+           (fun l r => conds_match [CEq] ((fun l => [nth 0 l VNull]) l) ((fun r => [nth 0 r VNull]) r))
+           (concat (concat [[[[VInt 1]]; [[VInt 2]]]])) (concat (concat [[[[VInt 2]; [VNull]]]])).
+Proof.
+  split; [exact hash_ints_ok|]. split; [discriminate|]. split; [lia|]. split; [constructor|].
+  intros l r Hl Hr. cbn in Hl, Hr.
+  destruct Hl as [<-|[<-|[]]]; destruct Hr as [<-|[<-|[]]]; reflexivity.
+Qed.
+
+(* ------------------------------------------------------------------ executable example *)
+(* many-to-many with duplicates and NULL keys on both sides, an inequality as second condition,
+   2 build partitions, 3 probe batches in 2 partitions, capacity 2^1, scrambled insertion order *)
+Definition ex_L : list (list (list row)) :=
+  [ [ [[VInt 1; VInt 10]; [VInt 2; VInt 20]; [VNull; VInt 30]] ; [[VInt 1; VInt 11]] ];
+    [ [[VInt 3; VInt 40]; [VInt 1; VInt 12]; [VInt 2; VInt 21]] ] ].
+Definition ex_R : list (list (list row)) :=
+  [ [ [[VInt 1; VInt 11]; [VNull; VInt 5]; [VInt 2; VInt 100]] ; [[VInt 1; VInt 0]] ];
+    [ [[VInt 4; VInt 7]; [VInt 1; VInt 50]; [VInt 2; VInt 20]] ] ].
+Definition ex_ops := [CEq; CLt].
+Definition ex_bk (l : row) : list value := [nth 0 l VNull; nth 1 l VNull].
+Definition ex_pk (r : row) : list value := [nth 0 r VNull; nth 1 r VNull].
+Definition ex_ins : list bptr :=
+  let s := stored_rows ex_L in
+  List.filter (fun b => Nat.odd (fst b)) s ++ rev (List.filter (fun b => Nat.even (fst b)) s).
+Definition ex_on (x : row) : res bool :=
+  Ok (conds_match ex_ops [nth 0 x VNull; nth 1 x VNull] [nth 2 x VNull; nth 3 x VNull]).
+
+Definition ex_check (k : hkind) (kbits : N) (P : nat) : bool :=
+  match join_rows (spec_kind k) (concat (concat ex_L)) (concat (concat ex_R)) 2 2 ex_on with
+  | Ok want => bag_eqb want (hash_join hash_ints ex_ops ex_bk ex_pk kbits k 2 2 P ex_L ex_ins ex_R)
+  | Err _ => false
+  end.
+
+Example hash_join_runs :
+  forallb (fun k => ex_check k 1 3 && ex_check k 0 1 && ex_check k 4 2) [HInner; HLeft; HRight; HSemi] = true
+  /\ length (hash_join hash_ints ex_ops ex_bk ex_pk 1 HLeft 2 2 3 ex_L ex_ins ex_R) = 8%nat
+  /\ match join_rows JAnti (concat (concat ex_L)) (concat (concat ex_R)) 2 2 ex_on with
+     | Ok want => bag_eqb want (mark_filter false
+                                  (hash_join hash_ints ex_ops ex_bk ex_pk 1 HMark 2 2 3 ex_L ex_ins ex_R))
+     | Err _ => false
+     end = true.
+Proof. vm_compute. repeat split. Qed.
+
+
+(* ------------------------------------------------------------------ (3) nested-loop join *)
+
+Definition kind_of_n (k : nkind) : hkind :=
+  match k with NInner => HInner | NLeft => HLeft | NRight => HRight | NSemi => HSemi | NMark => HMark end.
+
+Definition mark_rows_g (p : row -> row -> bool) (L R : list row) : list row :=
+  map (fun l => l ++ [VBool (existsb (p l) R)]) L.
+
+(* the bag both operators have to produce *)
+Definition pure_h (k : hkind) (L R : list row) (la ra : nat) (p : row -> row -> bool) : list row :=
+  match k with
+  | HMark => mark_rows_g p L R
+  | _ => pure_join (spec_kind k) L R la ra p
+  end.
+
+Lemma filter_true : forall {A} (l : list A), filter (fun _ => true) l = l.
+Proof. intros A l. induction l as [|x l IH]; cbn; [reflexivity|]. rewrite IH. reflexivity. Qed.
+
+Section NlJoinCorrect.
+  Variable f : row -> row -> bool.
+  Notation nlj := (nl_join (Some f)).
+
+  Lemma collected_snd : forall Lparts, map snd (collected Lparts) = concat (concat Lparts).
+  Proof. intros Lparts. unfold collected. apply combine_seq_snd. Qed.
+
+  Lemma collected_nodup : forall Lparts, NoDup (map fst (collected Lparts)).
+  Proof. intros Lparts. unfold collected. rewrite combine_seq_fst. apply seq_NoDup. Qed.
+
+  Lemma nl_flags : forall (IL : list lptr) (st : list (row * bool)),
+    fold_left (nl_right_step (Some f)) IL st
+    = map (fun rm => (fst rm, snd rm || existsb (fun il : lptr => f (snd il) (fst rm)) IL)) st.
+  Proof.
+    induction IL as [|x IL IH]; intros st; cbn [fold_left existsb].
+    - rewrite <- (map_id st) at 1. apply map_ext. intros [r m]. cbn. rewrite orb_false_r. reflexivity.
+    - rewrite IH. unfold nl_right_step. rewrite map_map. apply map_ext. intros [r m]. cbn.
+      rewrite orb_assoc. reflexivity.
+  Qed.
+
+  Lemma nl_flush : forall la (flag : row -> bool) (rb : list row),
+    map (fun rm : row * bool => nulls la ++ fst rm)
+        (filter (fun rm => negb (snd rm)) (map (fun r => (r, flag r)) rb))
+    = flat_map (fun r => if flag r then [] else [nulls la ++ r]) rb.
+  Proof.
+    intros la flag rb. induction rb as [|r rb IH]; [reflexivity|].
+    cbn [map filter flat_map snd]. destruct (flag r); cbn [negb map app fst]; rewrite IH; reflexivity.
+  Qed.
+
+  Section NlInputs.
+    Variable Lparts : list (list (list row)).
+    Variable dr : list lptr.
+    Hypothesis dr_perm : Permutation dr (collected Lparts).
+    Variable Rparts : list (list (list row)).
+    Let L := concat (concat Lparts).
+    Let R := concat (concat Rparts).
+    Let IL := collected Lparts.
+
+    Lemma nl_pairs_batch : forall k rb, k <> NSemi -> k <> NMark ->
+      Permutation (flat_map (fun il : lptr => nl_cross_out (Some f) k rb (snd il)) IL)
+                  (flat_map (RMp f L) rb).
+    Proof.
+      intros k rb H1 H2.
+      assert (E : flat_map (fun il : lptr => nl_cross_out (Some f) k rb (snd il)) IL
+                  = flat_map (nl_cross_out (Some f) k rb) (map snd IL)) by (symmetry; apply flat_map_map_in).
+      rewrite E. unfold IL. rewrite collected_snd.
+      fold L. apply Permutation_sym.
+      eapply Permutation_trans; [apply (inner_swap_perm_g f L rb 0 0)|].
+      cbn [pure_join]. unfold rmatches, nl_cross_out.
+      destruct k; try congruence; apply Permutation_refl.
+    Qed.
+
+    Lemma nl_nopairs_batch : forall k rb, k = NSemi \/ k = NMark ->
+      flat_map (fun il : lptr => nl_cross_out (Some f) k rb (snd il)) IL = [].
+    Proof.
+      intros k rb H. induction IL as [|il l IH]; [reflexivity|]. cbn [flat_map]. rewrite IH.
+      destruct H; subst k; reflexivity.
+    Qed.
+
+    Lemma nl_right_flush : forall la rb,
+      map (fun rm : row * bool => nulls la ++ fst rm)
+          (filter (fun rm => negb (snd rm))
+                  (fold_left (nl_right_step (Some f)) IL (map (fun r => (r, false)) rb)))
+      = flat_map (fun r => if existsb (fun l => f l r) L then [] else [nulls la ++ r]) rb.
+    Proof.
+      intros la rb. rewrite nl_flags, map_map. cbn [fst snd orb].
+      rewrite (nl_flush la (fun r => existsb (fun il : lptr => f (snd il) r) IL)).
+      apply flat_map_ext. intros r. unfold L. rewrite <- collected_snd, existsb_map. reflexivity.
+    Qed.
+
+    Let res (k : nkind) (la : nat) := map (nl_probe_batch (Some f) k la IL) (concat Rparts).
+
+    Lemma nl_marked_spec : forall k la il, tracks_left k = true -> In il IL ->
+      nl_is_marked (flat_map snd (res k la)) il = existsb (f (snd il)) R.
+    Proof.
+      intros k la il Hk Hil. apply eq_true_iff_eq. unfold nl_is_marked. rewrite !existsb_exists.
+      unfold res. rewrite flat_map_map_in. unfold nl_probe_batch; cbn [snd]. split.
+      - intros [i [Hi Heq]]. apply Nat.eqb_eq in Heq. apply in_flat_map in Hi.
+        destruct Hi as [rb [Hrb Hi]]. apply in_flat_map in Hi. destruct Hi as [il' [Hil' Hi]].
+        unfold nl_left_mark in Hi. rewrite Hk in Hi. cbn [andb] in Hi.
+        destruct (existsb (f (snd il')) rb) eqn:E; [|destruct Hi].
+        destruct Hi as [Hi|[]].
+        assert (il' = il).
+        { apply (nodup_fst_inj IL); [apply collected_nodup|exact Hil'|exact Hil|congruence]. }
+        subst il'. apply existsb_exists in E. destruct E as [r [Hr Hf]].
+        exists r. split; [|exact Hf]. unfold R. apply in_concat. exists rb. split; assumption.
+      - intros [r [Hr Hf]]. unfold R in Hr. apply in_concat in Hr. destruct Hr as [rb [Hrb Hr]].
+        exists (fst il). split; [|apply Nat.eqb_refl].
+        apply in_flat_map. exists rb. split; [exact Hrb|].
+        apply in_flat_map. exists il. split; [exact Hil|].
+        unfold nl_left_mark. rewrite Hk. cbn [andb].
+        replace (existsb (f (snd il)) rb) with true; [left; reflexivity|].
+        symmetry. apply existsb_exists. exists r. split; assumption.
+    Qed.
+
+    Definition nl_drain_spec (k : nkind) (ra : nat) (l : row) : list row :=
+      match k with
+      | NLeft => if existsb (f l) R then [] else [l ++ nulls ra]
+      | NSemi => if existsb (f l) R then [l] else []
+      | NMark => [l ++ [VBool (existsb (f l) R)]]
+      | NInner | NRight => []
+      end.
+
+    Lemma nl_drain_perm : forall k la ra, tracks_left k = true ->
+      Permutation (flat_map (nl_drain_row k ra (flat_map snd (res k la))) dr)
+                  (flat_map (nl_drain_spec k ra) L).
+    Proof.
+      intros k la ra Hk.
+      eapply Permutation_trans; [apply perm_flat_map; exact dr_perm|].
+      unfold L. rewrite <- collected_snd, flat_map_map_in. fold IL.
+      apply perm_flat_map_ext. intros il Hil.
+      unfold nl_drain_row, nl_drain_spec. rewrite (nl_marked_spec k la il Hk Hil).
+      apply Permutation_refl.
+    Qed.
+
+    Lemma nl_probe_inner_perm : forall k la ra, k = NInner \/ k = NLeft ->
+      Permutation (flat_map fst (res k la)) (pure_join JInner L R la ra f).
+    Proof.
+      intros k la ra Hk. unfold res. rewrite flat_map_map_in.
+      eapply Permutation_trans.
+      - apply perm_flat_map_ext. intros rb _.
+        apply Permutation_trans with (flat_map (fun il : lptr => nl_cross_out (Some f) k rb (snd il)) IL).
+        + destruct Hk; subst k; unfold nl_probe_batch; cbn [fst]; rewrite app_nil_r; apply Permutation_refl.
+        + apply nl_pairs_batch; destruct Hk; subst k; discriminate.
+      - apply Permutation_trans with (flat_map (RMp f L) R); [|apply inner_swap_perm_g].
+        unfold R. rewrite (flat_map_concat (RMp f L) (concat Rparts)). apply Permutation_refl.
+    Qed.
+
+    Lemma nl_probe_none : forall k la, k = NSemi \/ k = NMark -> flat_map fst (res k la) = [].
+    Proof.
+      intros k la Hk. unfold res. rewrite flat_map_map_in.
+      induction (concat Rparts) as [|rb rbs IH]; [reflexivity|]. cbn [flat_map].
+      rewrite IH, app_nil_r.
+      destruct Hk; subst k; unfold nl_probe_batch; cbn [fst]; rewrite app_nil_r;
+        apply nl_nopairs_batch; auto.
+    Qed.
+
+    Theorem nl_join_pure : forall k la ra,
+      Permutation (nlj k la ra Lparts dr Rparts) (pure_h (kind_of_n k) L R la ra f).
+    Proof.
+      intros k la ra. unfold nl_join. fold IL. fold (res k la).
+      destruct k; cbn [tracks_left kind_of_n pure_h spec_kind].
+      - rewrite app_nil_r. apply nl_probe_inner_perm. left. reflexivity.
+      - eapply Permutation_trans; [|apply Permutation_sym; apply left_decompose_g].
+        apply Permutation_app.
+        + apply nl_probe_inner_perm. right. reflexivity.
+        + apply (nl_drain_perm NLeft la ra eq_refl).
+      - rewrite app_nil_r. unfold res. rewrite flat_map_map_in. unfold nl_probe_batch; cbn [fst pure_join].
+        unfold R. rewrite (flat_map_concat _ (concat Rparts)). apply perm_flat_map_ext. intros rb _.
+        rewrite nl_right_flush.
+        eapply Permutation_trans; [apply Permutation_app_tail; apply nl_pairs_batch; discriminate|].
+        apply right_rows_perm.
+      - rewrite nl_probe_none by (left; reflexivity). cbn [app].
+        eapply Permutation_trans; [apply (nl_drain_perm NSemi la ra eq_refl)|].
+        cbn [pure_join]. unfold nl_drain_spec.
+        rewrite (flat_map_if_filter (fun l => existsb (f l) R) (fun l => l)), map_id.
+        apply Permutation_refl.
+      - rewrite nl_probe_none by (right; reflexivity). cbn [app].
+        eapply Permutation_trans; [apply (nl_drain_perm NMark la ra eq_refl)|].
+        unfold nl_drain_spec, mark_rows_g. rewrite flat_map_singleton. apply Permutation_refl.
+    Qed.
+  End NlInputs.
+End NlJoinCorrect.
+
+(* CROSS JOIN: filter None, kind INNER *)
+Lemma nl_cross_as_true : forall la ra Lparts dr Rparts,
+  nl_join None NInner la ra Lparts dr Rparts = nl_join (Some (fun _ _ => true)) NInner la ra Lparts dr Rparts.
+Proof.
+  intros la ra Lparts dr Rparts. unfold nl_join. cbn [tracks_left]. f_equal.
+  rewrite !flat_map_map_in. apply flat_map_ext. intros rb. unfold nl_probe_batch; cbn [fst]. f_equal.
+  apply flat_map_ext. intros il. unfold nl_cross_out. rewrite filter_true. reflexivity.
+Qed.
+
+Definition nspec_kind (k : nkind) : jkind := spec_kind (kind_of_n k).
+
+Theorem nl_join_refines_spec :
+  forall f k la ra Lparts dr Rparts on,
+  k <> NMark ->
+  Permutation dr (collected Lparts) ->
+  on_total on f (concat (concat Lparts)) (concat (concat Rparts)) ->
+  exists out,
+    join_rows (nspec_kind k) (concat (concat Lparts)) (concat (concat Rparts)) la ra on = Ok out /\
+    Permutation (nl_join (Some f) k la ra Lparts dr Rparts) out.
+Proof.
+  intros f k la ra Lparts dr Rparts on Hk Hdr Hon.
+  eexists. split; [apply (join_rows_pure _ _ _ _ _ _ _ Hon)|].
+  eapply Permutation_trans; [apply nl_join_pure; exact Hdr|].
+  destruct k; try congruence; apply Permutation_refl.
+Qed.
+
+Theorem nl_cross_refines_spec : forall la ra Lparts dr Rparts,
+  exists out,
+    join_rows JCross (concat (concat Lparts)) (concat (concat Rparts)) la ra (fun _ => Ok true) = Ok out /\
+    Permutation (nl_join None NInner la ra Lparts dr Rparts) out.
+Proof.
+  intros la ra Lparts dr Rparts. rewrite nl_cross_as_true.
+  eexists. split.
+  - apply (join_rows_pure JCross _ _ _ _ _ (fun _ _ => true)). intros l r _ _. reflexivity.
+  - unfold nl_join. cbn [tracks_left]. rewrite app_nil_r.
+    (* INNER needs no drain, so `dr` is irrelevant *)
+    pose proof (nl_join_pure (fun _ _ => true) Lparts (collected Lparts) (Permutation_refl _) Rparts NInner la ra) as H.
+    unfold nl_join in H. cbn [tracks_left] in H. rewrite app_nil_r in H. exact H.
+Qed.
+
+Theorem nl_mark_refines_spec :
+  forall f la ra Lparts dr Rparts on,
+  Permutation dr (collected Lparts) ->
+  on_total on f (concat (concat Lparts)) (concat (concat Rparts)) ->
+  let out := nl_join (Some f) NMark la ra Lparts dr Rparts in
+  Permutation out (mark_rows_g f (concat (concat Lparts)) (concat (concat Rparts))) /\
+  exists s a,
+    join_rows JSemi (concat (concat Lparts)) (concat (concat Rparts)) la ra on = Ok s /\
+    join_rows JAnti (concat (concat Lparts)) (concat (concat Rparts)) la ra on = Ok a /\
+    Permutation (mark_filter true out) s /\ Permutation (mark_filter false out) a.
+Proof.
+  intros f la ra Lparts dr Rparts on Hdr Hon out.
+  assert (HM : Permutation out (mark_rows_g f (concat (concat Lparts)) (concat (concat Rparts)))).
+  { apply (nl_join_pure f Lparts dr Hdr Rparts NMark la ra). }
+  split; [exact HM|].
+  exists (pure_join JSemi (concat (concat Lparts)) (concat (concat Rparts)) la ra f),
+         (pure_join JAnti (concat (concat Lparts)) (concat (concat Rparts)) la ra f).
+  rewrite !(join_rows_pure _ _ _ _ _ _ _ Hon). repeat split.
+  - eapply Permutation_trans; [apply perm_flat_map; exact HM|].
+    fold (mark_filter true (mark_rows_g f (concat (concat Lparts)) (concat (concat Rparts)))).
+    unfold mark_rows_g. rewrite mark_filter_mark_rows. cbn [pure_join].
+    erewrite filter_ext_in'; [apply Permutation_refl|].
+    intros l _. cbn beta.
+    match goal with |- Bool.eqb ?x _ = ?y => change y with x; destruct x; reflexivity end.
+  - eapply Permutation_trans; [apply perm_flat_map; exact HM|].
+    fold (mark_filter false (mark_rows_g f (concat (concat Lparts)) (concat (concat Rparts)))).
+    unfold mark_rows_g. rewrite mark_filter_mark_rows. cbn [pure_join].
+    erewrite filter_ext_in'; [apply Permutation_refl|].
+    intros l _. cbn beta.
+    match goal with |- Bool.eqb ?x _ = negb ?y => change y with x; destruct x; reflexivity end.
+Qed.
+
+(* the hash join in the same form *)
+Theorem hash_join_pure :
+  forall hash, hash_ok hash ->
+  forall ops bkeys pkeys kbits k la ra P Lparts ins Rparts,
+  (1 <= P)%nat -> Permutation ins (stored_rows Lparts) ->
+  Permutation (hash_join hash ops bkeys pkeys kbits k la ra P Lparts ins Rparts)
+              (pure_h k (concat (concat Lparts)) (concat (concat Rparts)) la ra
+                      (fun l r => conds_match ops (bkeys l) (pkeys r))).
+Proof.
+  intros hash Hh ops bkeys pkeys kbits k la ra P Lparts ins Rparts HP Hins.
+  destruct k; cbn [pure_h spec_kind].
+  - apply hash_inner_pure; assumption.
+  - apply hash_left_pure; assumption.
+  - apply hash_right_pure; assumption.
+  - apply hash_semi_pure; assumption.
+  - apply hash_mark_pure; assumption.
+Qed.
+
+(* hash join and nested-loop join give the same answer (all five kinds, no condition on `on`:
+   both are run with the same comparison conditions) *)
+Theorem join_algo_irrelevant :
+  forall hash, hash_ok hash ->
+  forall ops bkeys pkeys kbits k la ra P Lparts ins dr Rparts,
+  (1 <= P)%nat -> Permutation ins (stored_rows Lparts) -> Permutation dr (collected Lparts) ->
+  Permutation (hash_join hash ops bkeys pkeys kbits (kind_of_n k) la ra P Lparts ins Rparts)
+              (nl_join (Some (fun l r => conds_match ops (bkeys l) (pkeys r))) k la ra Lparts dr Rparts).
+Proof.
+  intros hash Hh ops bkeys pkeys kbits k la ra P Lparts ins dr Rparts HP Hins Hdr.
+  eapply Permutation_trans; [apply hash_join_pure; assumption|].
+  apply Permutation_sym. apply nl_join_pure. exact Hdr.
+Qed.
+
+Example join_algo_irrelevant_ex :
+  hash_ok hash_ints /\ (1 <= 3)%nat /\ Permutation ex_ins (stored_rows ex_L)
+  /\ Permutation (rev (collected ex_L)) (collected ex_L).
+Proof.
+  split; [exact hash_ints_ok|]. split; [lia|]. split.
+  - unfold ex_ins. apply Permutation_sym.
+    eapply Permutation_trans; [apply Permutation_sym; apply (filter_partition_perm (fun b : bptr => Nat.odd (fst b)))|].
+    apply Permutation_app_head.
+    eapply Permutation_trans; [|apply Permutation_rev].
+    erewrite filter_ext_in'; [apply Permutation_refl|].
+    intros b _. cbn beta. rewrite <- Nat.negb_odd. reflexivity.
+  - apply Permutation_sym. apply Permutation_rev.
+Qed.
+
+Example nl_join_runs :
+  let f := fun l r => conds_match ex_ops (ex_bk l) (ex_pk r) in
+  forallb (fun k =>
+    match join_rows (nspec_kind k) (concat (concat ex_L)) (concat (concat ex_R)) 2 2 ex_on with
+    | Ok want => bag_eqb want (nl_join (Some f) k 2 2 ex_L (rev (collected ex_L)) ex_R)
+                 && bag_eqb (hash_join hash_ints ex_ops ex_bk ex_pk 1 (kind_of_n k) 2 2 3 ex_L ex_ins ex_R)
+                            (nl_join (Some f) k 2 2 ex_L (rev (collected ex_L)) ex_R)
+    | Err _ => false
+    end) [NInner; NLeft; NRight; NSemi] = true.
+Proof. vm_compute. reflexivity. Qed.
+
+(* Latent (not reachable from SQL as far as we found: `ON TRUE` is planned with filter Some(true)):
+   without a filter the source sets no match flags, so an outer kind would emit the cross product AND
+   every preserved row padded. *)
+Example nl_no_filter_left_latent :
+  nl_join None NLeft 1 1 [[[[VInt 1]]]] (collected [[[[VInt 1]]]]) [[[[VInt 7]]]]
+  = [[VInt 1; VInt 7]; [VInt 1; VNull]].
+Proof. reflexivity. Qed.
+Example nl_no_filter_right_latent :
+  nl_join None NRight 1 1 [[[[VInt 1]]]] (collected [[[[VInt 1]]]]) [[[[VInt 7]]]]
+  = [[VInt 1; VInt 7]; [VNull; VInt 7]].
+Proof. reflexivity. Qed.
+
+(* ------------------------------------------------------------------ (4) drain partitions *)
+
+(* Drain partition p reads blocks p, p+P, p+2P, ...: together the P partitions read every block, hence
+   every stored row, exactly once (the addresses read have no duplicate), for every P >= 1; and the
+   drain output is the per-row output over all stored rows. *)
+Theorem drain_partitions_disjoint_cover : forall (blocks : list (list row)) (P : nat), (1 <= P)%nat ->
+  let nb := number_blocks 0 blocks in
+  let read := concat (flat_map (fun p => strided P p nb) (seq 0 P)) in
+  Permutation read (concat nb) /\ NoDup (map fst read) /\
+  forall k ra marked, needs_drain k = true ->
+    Permutation (drain_all k ra marked nb P) (flat_map (drain_row k ra marked) (concat nb)).
+Proof.
+  intros blocks P HP nb read.
+  assert (H : Permutation read (concat nb)).
+  { apply perm_concat. apply strided_cover. exact HP. }
+  split; [exact H|]. split.
+  - apply (Permutation_NoDup (l := map fst (concat nb))).
+    + apply Permutation_sym. apply Permutation_map. exact H.
+    + unfold nb. rewrite number_blocks_concat, combine_seq_fst. apply seq_NoDup.
+  - intros k ra marked Hk. apply drain_all_perm; assumption.
+Qed.
+
+Example drain_partitions_disjoint_cover_ex :
+  map (fun p => strided 3 p [10; 11; 12; 13; 14; 15; 16]%nat) (seq 0 3)
+  = [[10; 13; 16]; [11; 14]; [12; 15]]%nat.
+Proof. reflexivity. Qed.
+
+(* empty sides (JoinType::empty_output_on_empty_build): with an empty build side INNER/LEFT/SEMI are
+   empty and RIGHT pads every probe row; with an empty probe side LEFT pads every build row *)
+Theorem empty_side_behaviour : forall (R L : list row) la ra (p : row -> row -> bool),
+  pure_join JInner [] R la ra p = [] /\ pure_join JLeft [] R la ra p = [] /\
+  pure_join JSemi [] R la ra p = [] /\ pure_join JAnti [] R la ra p = [] /\
+  pure_join JRight [] R la ra p = map (fun r => nulls la ++ r) R /\
+  pure_join JLeft L [] la ra p = map (fun l => l ++ nulls ra) L /\
+  pure_join JAnti L [] la ra p = L /\ pure_join JSemi L [] la ra p = [].
+Proof.
+  intros R L la ra p.
+  split; [reflexivity|]. split; [reflexivity|]. split; [reflexivity|]. split; [reflexivity|].
+  split; [|split; [|split]]; cbn [pure_join].
+  - rewrite <- (flat_map_singleton (fun r => nulls la ++ r) R). apply flat_map_ext. intros r. reflexivity.
+  - rewrite <- (flat_map_singleton (fun l => l ++ nulls ra) L). apply flat_map_ext. intros l. reflexivity.
+  - exact (filter_true L).
+  - induction L as [|l L IH]; [reflexivity|exact IH].
+Qed.
